@@ -123,7 +123,7 @@ rec_funcinst(struct func *f, int op, int class, struct value *arg0, struct value
 #endif
 #define Z_ENDUP  SPEC_ALIGNUP(g_end, g_align)
 
-#define PRE(X) \
+#define PRE_ZERO(X) \
 	X(func != 0 && func == g_func && addr != 0 && addr == g_addr) \
 	X(align >= Z_ALIGN_MIN && align <= Z_ALIGN_MAX && SPEC_ISPOW2(align) && align == g_align) \
 	/* machine arithmetic: object sizes are far below 2^62 (offset + 8 and ALIGNUP(end) must not wrap) */ \
@@ -133,7 +133,7 @@ rec_funcinst(struct func *f, int op, int class, struct value *arg0, struct value
 	X(g.pos == offset && g.n == 0 && !g.have_tmp && !g.bcov && g.vptr == 0) \
 	X(g.ok_op && g.ok_add && g.ok_val && g.ok_dst && g.ok_contig && g.ok_natural && g.ok_size)
 
-#define POST(X) \
+#define POST_ZERO(X) \
 	/* C19/C03: only well-formed instructions: =l add addr, K  and  storeb/h/w/l 0, <addr | that temporary> */ \
 	X(g.ok_op) \
 	X(g.ok_add) \
@@ -159,9 +159,9 @@ rec_funcinst(struct func *f, int op, int class, struct value *arg0, struct value
 	CANARY(X, !(g_align == Z_ALIGN_MIN && g_off0 == 3 && g_end == 9 && g_b == 7))
 
 static void zero_contract(struct func *func, struct value *addr, int align, unsigned long long offset, unsigned long long end)
-REQUIRES(PRE)
+REQUIRES(PRE_ZERO)
 __CPROVER_assigns(g, g_const)
-ENSURES(POST);
+ENSURES(POST_ZERO);
 
 static void
 zero_harness(void)
@@ -178,5 +178,5 @@ zero_harness(void)
 	g_func = func; g_addr = addr; g_align = align; g_off0 = offset; g_end = end;
 	g.pos = offset; g.tmpoff = 0; g.n = 0; g.have_tmp = 0; g.bcov = 0; g.vptr = 0;
 	g.ok_op = g.ok_add = g.ok_val = g.ok_dst = g.ok_contig = g.ok_natural = g.ok_size = 1;
-	ZCALL(PRE, POST, zero(func, addr, align, offset, end));
+	ZCALL(PRE_ZERO, POST_ZERO, zero(func, addr, align, offset, end));
 }
